@@ -98,6 +98,9 @@ Section Core2Sim.
     - destruct (forallb is_gtext its). intros X; inversion X; auto. destruct g0; try discriminate. intros X; inversion X; auto.
   Qed.
 
+  Lemma attr_items_ok : forall pre, forallb names_ok (attr_items pre) = true.
+  Proof. induction pre; simpl; auto. Qed.
+
   Lemma sem_ok : forall f tm wp c, gok (sem2 f tm wp c).
   Proof.
     induction f; intros tm wp c x en en' o H. discriminate.
@@ -150,6 +153,25 @@ Section Core2Sim.
     - destruct (ev_avt ev_string (slk en) c nm); try discriminate. destruct (pi_ok s); try discriminate.
       destruct (sem_seq2 (sem2 f TOn wp c) body en) eqn:E; try discriminate. destruct (text_of_items l); try discriminate.
       intros X. inversion X. reflexivity.
+    - destruct (nonempty n) eqn:En; try discriminate.
+      destruct (sem_seq2 (sem2 f tm wp c) (use_sets use) en) eqn:E0; try discriminate.
+      destruct (ev_atts ev_string (slk en) c atts); try discriminate.
+      destruct (sem_seq2 (sem2 f tm wp c) body en) eqn:E; try discriminate. intros X. inversion X. simpl. rewrite En.
+      rewrite !forallb_app'. rewrite (IHs _ _ _ _ _ _ E0). rewrite (IHs _ _ _ _ _ _ E). rewrite attr_items_ok. reflexivity.
+    - destruct (ev_avt ev_string (slk en) c nm); try discriminate. destruct (name_ok s) eqn:En; try discriminate.
+      destruct (sem_seq2 (sem2 f tm wp c) (use_sets use) en) eqn:E0; try discriminate.
+      destruct (sem_seq2 (sem2 f tm wp c) body en) eqn:E; try discriminate. intros X. inversion X. simpl.
+      rewrite (name_ok_nonempty _ En). rewrite forallb_app'. rewrite (IHs _ _ _ _ _ _ E0). rewrite (IHs _ _ _ _ _ _ E). reflexivity.
+    - destruct (node_shallow (cnode c)) eqn:Es; try discriminate.
+      + destruct (nonempty n) eqn:En; cbn [andb]; try discriminate. destruct (elem_guard gd tm); try discriminate.
+        destruct (sem_seq2 (sem2 f tm wp c) (use_sets use) en) eqn:E0; try discriminate.
+        destruct (sem_seq2 (sem2 f tm wp c) body en) eqn:E; try discriminate.
+        intros X. inversion X. simpl. rewrite En. rewrite forallb_app'. rewrite (IHs _ _ _ _ _ _ E0). rewrite (IHs _ _ _ _ _ _ E). reflexivity.
+      + destruct (sem_seq2 (sem2 f tm wp c) body en) eqn:E; try discriminate. intros X. inversion X. subst. eapply IHs; eauto.
+      + destruct (copy_guard gd tm its) eqn:Eg; try discriminate. intros X. inversion X. subst.
+        rewrite (copy_guard_ok _ _ _ _ Eg). eapply node_shallow_ok; eauto.
+    - destruct (nth_error templates (N.to_nat k)) as [[]|]; try discriminate.
+      destruct (sem_seq2 (sem2 f tm wp c) (set_body use atts) []) eqn:E; try discriminate. intros X. inversion X. subst. eapply IHs; eauto.
   Qed.
 
   (* ================= simulation ================= *)
@@ -241,6 +263,132 @@ Section Core2Sim.
       exists k, store', (VS (V ++ F) R). split; [exact Hrun|]. split; auto.
       pose proof (end_children_VS body V F R HG HV) as X. rewrite Ehv in X. apply X. intros _. apply Hnil. exact Ehv.
   Qed.
+
+  (* ---- a prefix of the children: the frame keeps the rest ---- *)
+  Lemma seq_sim_app : forall f, SimI f ->
+    forall body rest tm wp n l md en items,
+      sem_seq2 (sem2 f tm wp (cxof n l md)) body en = Some items ->
+    forall p stk nodes cnl cur modes ifs pvs store o F R benv wpb,
+      GoodR F R -> Fr true F benv wpb -> Res store benv en -> tflag o = mflag fx_frag tm ->
+    exists k store' V,
+      run2 k KNext (mkM2 ((p, body ++ rest, false) :: stk) nodes (l :: cnl) (n :: cur) (md :: modes) ifs pvs (VS F R) store o)
+      = Run2 KNext (mkM2 ((p, rest, false) :: stk) nodes (l :: cnl) (n :: cur) (md :: modes) ifs pvs (VS (V ++ F) R) store' (emit2 (ops_of items) o))
+      /\ Forall is_varE V /\ (exists ext, store' = store ++ ext) /\ (has_decl2 body = false -> V = []).
+  Proof.
+    intros f Hf. induction body as [|x r IH]; intros rest tm wp n l md en items Hs p stk nodes cnl cur modes ifs pvs store o F R benv wpb HG HF HR Ht.
+    - simpl in Hs. inversion Hs; subst. exists 0, store, []. simpl. rewrite emit_nil. repeat split; auto. apply ext_refl.
+    - cbn [sem_seq2] in Hs.
+      destruct (sem2 f tm wp (cxof n l md) x en) as [[en1 o1]|] eqn:E1; try discriminate.
+      match type of Hs with match ?t with _ => _ end = _ => destruct t as [o2|] eqn:E2; try discriminate end.
+      inversion Hs; subst items. clear Hs.
+      destruct (Hf _ _ _ _ _ _ _ _ _ E1 ((p, r ++ rest, false) :: stk) nodes cnl cur modes ifs pvs store o F R benv wpb HG HF HR Ht)
+        as [k1 [store1 [V1 [newb [Hrun1 [HV1 [HF1 [HR1 [Hext1 Hnil1]]]]]]]]].
+      assert (HG1 : GoodR (V1 ++ F) R) by (apply GoodR_vars; auto).
+      destruct (IH rest _ _ _ _ _ _ _ E2 p stk nodes cnl cur modes ifs pvs store1 (emit2 (ops_of o1) o) (V1 ++ F) R (newb ++ benv) wpb HG1 HF1 HR1 Ht)
+        as [k2 [store2 [V2 [Hrun2 [HV2 [Hext2 Hnil2]]]]]].
+      exists (1 + (k1 + k2)), store2, (V2 ++ V1). repeat split.
+      + rewrite (run_to 1 _ _ _ (KStart x) (mkM2 ((p, r ++ rest, false) :: stk) nodes (l :: cnl) (n :: cur) (md :: modes) ifs pvs (VS F R) store o)) by reflexivity.
+        rewrite (run_to _ _ _ _ _ _ Hrun1). rewrite Hrun2. rewrite ops_of_app. rewrite emit_app. rewrite <- app_assoc. reflexivity.
+      + apply Forall_app. split; auto.
+      + eapply ext_trans; eauto.
+      + simpl. intros X. apply orb_false_iff in X. destruct X as [X1 X2]. rewrite (Hnil1 X1). rewrite (Hnil2 X2). reflexivity.
+  Qed.
+
+  Definition frame_of (body : list instr2) (F : list entry) : list entry := if has_decl2 body then EFrame 0%N :: F else F.
+
+  Lemma begin_VS : forall body F R, begin_children2 body (VS F R) = VS (frame_of body F) R.
+  Proof. intros. unfold begin_children2, frame_of. destruct (has_decl2 body); auto. unfold VS. rewrite push_st. reflexivity. Qed.
+
+  Lemma frame_of_good : forall body F R benv wpb, GoodR F R -> Fr true F benv wpb -> GoodR (frame_of body F) R /\ Fr true (frame_of body F) benv wpb.
+  Proof.
+    intros. unfold frame_of. destruct (has_decl2 body); auto. split. apply Good_cons; simpl; auto. apply Fr_push_frame. assumption.
+  Qed.
+
+  Lemma use_sets_nodecl : forall use, has_decl2 (use_sets use) = false.
+  Proof. induction use; simpl; auto. Qed.
+
+  Lemma set_body_nodecl : forall use atts, has_decl2 (set_body use atts) = false.
+  Proof.
+    intros. unfold set_body, has_decl2. rewrite existsb_app. fold (has_decl2 (use_sets use)). rewrite use_sets_nodecl. simpl.
+    induction atts; simpl; auto.
+  Qed.
+
+  (* the children of an element that runs something without declarations (its attribute sets) before its own content *)
+  Lemma block_pre_sim : forall f, SimI f ->
+    forall pre_l body tm wp n l md en sa items, has_decl2 pre_l = false ->
+      sem_seq2 (sem2 f tm wp (cxof n l md)) pre_l en = Some sa ->
+      sem_seq2 (sem2 f tm wp (cxof n l md)) body en = Some items ->
+    forall p stk nodes cnl cur modes ifs pvs store o F R benv wpb,
+      GoodR F R -> Fr true F benv wpb -> Res store benv en -> tflag o = mflag fx_frag tm ->
+    exists k store' v1,
+      run2 k KNext (mkM2 ((p, pre_l ++ body, false) :: stk) nodes (l :: cnl) (n :: cur) (md :: modes) ifs pvs (begin_children2 body (VS F R)) store o)
+      = Run2 KNext (mkM2 ((p, [], false) :: stk) nodes (l :: cnl) (n :: cur) (md :: modes) ifs pvs v1 store' (emit2 (ops_of (sa ++ items)) o))
+      /\ end_children2 body v1 = Some (VS F R) /\ (exists ext, store' = store ++ ext).
+  Proof.
+    intros f Hf pre_l body tm wp n l md en sa items Hnd Hsa Hs p stk nodes cnl cur modes ifs pvs store o F R benv wpb HG HF HR Ht.
+    rewrite begin_VS. destruct (frame_of_good body F R benv wpb HG HF) as [HG0 HF0].
+    destruct (seq_sim_app f Hf _ body _ _ _ _ _ _ _ Hsa p stk nodes cnl cur modes ifs pvs store o (frame_of body F) R benv wpb HG0 HF0 HR Ht)
+      as [k1 [store1 [V1 [Hrun1 [HV1 [Hext1 Hnil1]]]]]].
+    rewrite (Hnil1 Hnd) in Hrun1. cbn [app] in Hrun1.
+    destruct (seq_sim f Hf _ _ _ _ _ _ _ _ Hs p stk nodes cnl cur modes ifs pvs store1 (emit2 (ops_of sa) o) (frame_of body F) R benv wpb HG0 HF0 (Res_ext' _ _ _ _ Hext1 HR) Ht)
+      as [k2 [store2 [V2 [Hrun2 [HV2 [Hext2 Hnil2]]]]]].
+    exists (k1 + k2), store2, (VS (V2 ++ frame_of body F) R). split; [|split].
+    - rewrite (run_to _ _ _ _ _ _ Hrun1). rewrite Hrun2. rewrite ops_of_app. rewrite emit_app. reflexivity.
+    - unfold frame_of. apply end_children_VS; auto.
+    - eapply ext_trans; eauto.
+  Qed.
+
+  (* ---- attribute sets add attributes only; so the start tag is still pending when the element's own AVTs are added ---- *)
+  Definition is_gattr (i : item) : bool := match i with GAttr _ _ => true | _ => false end.
+  Definition set_like (x : instr2) : bool := match x with JSet _ | JAttribute _ _ => true | _ => false end.
+
+  Lemma set_body_like : forall use atts, forallb set_like (set_body use atts) = true.
+  Proof.
+    intros. unfold set_body. rewrite forallb_app'. apply andb_true_iff. split.
+    - induction use; simpl; auto.
+    - induction atts; simpl; auto.
+  Qed.
+
+  Lemma sets_attr_only : forall f tm wp c l en o, forallb set_like l = true ->
+    sem_seq2 (sem2 f tm wp c) l en = Some o -> forallb is_gattr o = true.
+  Proof.
+    induction f; intros tm wp c l.
+    - destruct l; intros en o _ H; simpl in H. inversion H; reflexivity. discriminate.
+    - induction l as [|x r IHl]; intros en o Hl H. { simpl in H. inversion H; reflexivity. }
+      cbn [XsltCore2Defs.sem_seq2] in H. simpl in Hl. apply andb_true_iff in Hl. destruct Hl as [Hx Hr].
+      destruct (sem2 (S f) tm wp c x en) as [[en1 o1]|] eqn:E1; try discriminate.
+      destruct (sem_seq2 (sem2 (S f) tm wp c) r en1) as [o2|] eqn:E2; try discriminate. inversion H.
+      rewrite forallb_app'. rewrite (IHl _ _ Hr E2). rewrite andb_true_r.
+      destruct x; try discriminate; cbn [XsltCore2Defs.sem2] in E1.
+      + destruct (ev_avt ev_string (slk en) c v); try discriminate. inversion E1. reflexivity.
+      + destruct (nth_error templates (N.to_nat k)) as [[]|]; try discriminate.
+        destruct (sem_seq2 (sem2 f tm wp c) (set_body use atts) []) eqn:E; try discriminate. inversion E1; subst.
+        eapply IHf; [apply set_body_like|exact E].
+  Qed.
+
+  Lemma use_sets_like : forall use, forallb set_like (use_sets use) = true.
+  Proof. induction use; simpl; auto. Qed.
+
+  Lemma attr_ops_keep_pending : forall its s, forallb is_gattr its = true -> pname (run_ops (ops_of its) s) = pname s.
+  Proof.
+    induction its as [|i r IH]; intros s H. reflexivity.
+    simpl in H. apply andb_true_iff in H. destruct H as [H1 H2]. destruct i; try discriminate.
+    unfold ops_of. cbn [flat_map ops_of_item app]. change (flat_map ops_of_item r) with (ops_of r).
+    unfold run_ops. cbn [fold_left]. fold (run_ops (ops_of r) (XsltEventsDefs.step (IAttr n v) s)). rewrite IH by assumption.
+    cbn [XsltEventsDefs.step]. destruct (pending s); reflexivity.
+  Qed.
+
+  Lemma emit_avts_ops : forall nm sa pre o, nonempty nm = true -> forallb is_gattr sa = true ->
+    emit_avts pre (emit2 (ops_of sa) (emit2 [IStart nm] o)) =
+    emit2 (map (fun p => IAttr (fst p) (snd p)) pre) (emit2 (ops_of sa) (emit2 [IStart nm] o)).
+  Proof.
+    intros nm sa pre o Hn Hsa. destruct o as [[|e r] tx sr]; unfold emit_avts, emit2; cbn [o_fmt o_txt o_str]; auto.
+    f_equal. f_equal. apply add_attrs_guarded. unfold pending. rewrite attr_ops_keep_pending by assumption.
+    unfold run_ops. cbn [fold_left XsltEventsDefs.step eng_start pname]. exact Hn.
+  Qed.
+
+  Lemma ops_of_attr_items : forall pre, ops_of (attr_items pre) = map (fun p => IAttr (fst p) (snd p)) pre.
+  Proof. induction pre; simpl; auto. unfold ops_of in *. simpl. rewrite IHpre. reflexivity. Qed.
 
   (* ---- xsl:param children of a template instance ---- *)
   Lemma step_param_start : forall nm sel stk nodes l cnl n cur md modes ifs pvs v store o,
@@ -1024,6 +1172,107 @@ Section Core2Sim.
         one (KEnd i) (mkM2 stk nodes (l :: cnl) (n :: cur) (md :: modes) ifs pvs v1 store' (emit2 (ops_of o1) (push_fmt e_init (push_txt true (push_str [] (push_str pn o)))))).
         cbn [XsltCore2Defs.run2 XsltCore2Defs.step2 i]. rewrite Est. rewrite Hend. rewrite pop_text_collector by reflexivity.
         rewrite (collector_text _ _ Et). reflexivity.
+    - (* literal result element using attribute sets: start tag, the sets, the element's own AVTs, the content *)
+      destruct (nonempty n0) eqn:En; try discriminate.
+      destruct (sem_seq2 (sem2 f tm wp (cxof n l md)) (use_sets use) en) as [sa|] eqn:Esa; try discriminate.
+      destruct (ev_atts ev_string (slk en) (cxof n l md) atts) as [pre|] eqn:Ea; try discriminate.
+      destruct (sem_seq2 (sem2 f tm wp (cxof n l md)) body en) as [o1|] eqn:Eb; try discriminate.
+      inversion Hs; subst en' items. clear Hs.
+      set (i := JLreU n0 use atts body).
+      pose proof (sets_attr_only _ _ _ _ _ _ _ (use_sets_like use) Esa) as Hattr.
+      destruct (frame_of_good body F R benv wpb HG HF) as [HG0 HF0].
+      set (o0 := emit2 [IStart n0] o).
+      destruct (seq_sim_app f Hf _ (JAvts atts :: body) _ _ _ _ _ _ _ Esa i stk nodes cnl cur modes ifs pvs store o0 (frame_of body F) R benv wpb HG0 HF0 HR Ht)
+        as [k1 [store1 [V1 [Hrun1 [HV1 [Hext1 Hnil1]]]]]].
+      rewrite (Hnil1 (use_sets_nodecl use)) in Hrun1. cbn [app] in Hrun1.
+      set (o2 := emit2 (map (fun p => IAttr (fst p) (snd p)) pre) (emit2 (ops_of sa) o0)).
+      pose proof (Res_ext' _ _ _ _ Hext1 HR) as HR1.
+      destruct (seq_sim f Hf _ _ _ _ _ _ _ _ Eb i stk nodes cnl cur modes ifs pvs store1 o2 (frame_of body F) R benv wpb HG0 HF0 HR1 Ht)
+        as [k2 [store2 [V2 [Hrun2 [HV2 [Hext2 Hnil2]]]]]].
+      assert (Hext : exists ext, store2 = store ++ ext) by (eapply ext_trans; eauto).
+      close_nd (1 + (k1 + (1 + (1 + (1 + (k2 + (1 + 1))))))) store2 Hext HF HR.
+      rewrite (run_to 1 _ _ _ KNext (mkM2 ((i, use_sets use ++ JAvts atts :: body, false) :: stk) nodes (l :: cnl) (n :: cur) (md :: modes) ifs pvs (VS (frame_of body F) R) store o0)).
+      2:{ cbn [XsltCore2Defs.run2 XsltCore2Defs.step2 i]. rewrite begin_VS. reflexivity. }
+      rewrite (run_to _ _ _ _ _ _ Hrun1).
+      one (KStart (JAvts atts)) (mkM2 ((i, body, false) :: stk) nodes (l :: cnl) (n :: cur) (md :: modes) ifs pvs (VS (frame_of body F) R) store1 (emit2 (ops_of sa) o0)).
+      rewrite (run_to 1 _ _ _ (KEnd (JAvts atts)) (mkM2 ((i, body, false) :: stk) nodes (l :: cnl) (n :: cur) (md :: modes) ifs pvs (VS (frame_of body F) R) store1 o2)).
+      2:{ cbn [XsltCore2Defs.run2 XsltCore2Defs.step2]. fold (cxof n l md).
+          rewrite (ev_atts_ext _ _ _ (fun xs => mlk_slk (frame_of body F) R benv wpb store1 en xs HG0 HF0 HR1)). rewrite Ea.
+          unfold o0. rewrite emit_avts_ops by assumption. reflexivity. }
+      one KNext (mkM2 ((i, body, false) :: stk) nodes (l :: cnl) (n :: cur) (md :: modes) ifs pvs (VS (frame_of body F) R) store1 o2).
+      rewrite (run_to _ _ _ _ _ _ Hrun2).
+      one (KEnd i) (mkM2 stk nodes (l :: cnl) (n :: cur) (md :: modes) ifs pvs (VS (V2 ++ frame_of body F) R) store2 (emit2 (ops_of o1) o2)).
+      cbn [XsltCore2Defs.run2 XsltCore2Defs.step2 i]. unfold frame_of. rewrite (end_children_VS body V2 F R HG HV2 Hnil2).
+      unfold o2, o0. rewrite <- !emit_app. f_equal. unfold ops_of. cbn [flat_map ops_of_item map app]. rewrite app_nil_r.
+      rewrite !flat_map_app. fold (ops_of (attr_items pre)). rewrite ops_of_attr_items. rewrite <- !app_assoc. reflexivity.
+    - (* xsl:element using attribute sets *)
+      destruct (ev_avt ev_string (slk en) (cxof n l md) nm) as [en0|] eqn:Ea; try discriminate.
+      destruct (name_ok en0) eqn:En; try discriminate.
+      destruct (sem_seq2 (sem2 f tm wp (cxof n l md)) (use_sets use) en) as [sa|] eqn:Esa; try discriminate.
+      destruct (sem_seq2 (sem2 f tm wp (cxof n l md)) body en) as [o1|] eqn:Eb; try discriminate.
+      inversion Hs; subst en' items. clear Hs.
+      set (i := JElementU nm use body).
+      destruct (block_pre_sim f Hf _ _ _ _ _ _ _ _ _ _ (use_sets_nodecl use) Esa Eb i stk nodes cnl cur modes ifs pvs store (emit2 [IStart en0] (push_str en0 o)) F R benv wpb HG HF HR Ht)
+        as [k [store' [v1 [Hrun [Hend Hext]]]]].
+      close_nd (1 + (k + (1 + 1))) store' Hext HF HR.
+      rewrite (run_to 1 _ _ _ KNext (mkM2 ((i, use_sets use ++ body, false) :: stk) nodes (l :: cnl) (n :: cur) (md :: modes) ifs pvs (begin_children2 body (VS F R)) store (emit2 [IStart en0] (push_str en0 o)))).
+      2:{ cbn [XsltCore2Defs.run2 XsltCore2Defs.step2 i]. fold (cxof n l md). rewrite (ev_avt_ext _ _ _ Hlk). rewrite Ea. rewrite En. reflexivity. }
+      rewrite (run_to _ _ _ _ _ _ Hrun).
+      one (KEnd i) (mkM2 stk nodes (l :: cnl) (n :: cur) (md :: modes) ifs pvs v1 store' (emit2 (ops_of (sa ++ o1)) (emit2 [IStart en0] (push_str en0 o)))).
+      cbn [XsltCore2Defs.run2 XsltCore2Defs.step2 i]. rewrite Hend. rewrite pop_str_emit2.
+      rewrite <- (emit_elem en0 [] (sa ++ o1) o). reflexivity.
+    - (* xsl:copy using attribute sets *)
+      cbn [cnode cxof] in Hs. destruct (node_shallow n) as [nm| |its] eqn:Esh.
+      + destruct (nonempty nm) eqn:En; cbn [andb] in Hs; try discriminate.
+        destruct (elem_guard gd tm) eqn:Egd; try discriminate.
+        pose proof (elem_guard_mflag _ _ _ Hgf Egd) as Eton.
+        fold (cxof n l md) in Hs.
+        destruct (sem_seq2 (sem2 f tm wp (cxof n l md)) (use_sets use) en) as [sa|] eqn:Esa; try discriminate.
+        destruct (sem_seq2 (sem2 f tm wp (cxof n l md)) body en) as [o1|] eqn:Eb; try discriminate.
+        inversion Hs; subst en' items. clear Hs.
+        set (i := JCopyU use body).
+        destruct (block_pre_sim f Hf _ _ _ _ _ _ _ _ _ _ (use_sets_nodecl use) Esa Eb i stk nodes cnl cur modes ifs pvs store (emit2 [IStart nm] o) F R benv wpb HG HF HR Ht)
+          as [k [store' [v1 [Hrun [Hend Hext]]]]].
+        close_nd (1 + (k + (1 + 1))) store' Hext HF HR.
+        rewrite (run_to 1 _ _ _ KNext (mkM2 ((i, use_sets use ++ body, false) :: stk) nodes (l :: cnl) (n :: cur) (md :: modes) ifs pvs (begin_children2 body (VS F R)) store (emit2 [IStart nm] o))).
+        2:{ cbn [XsltCore2Defs.run2 XsltCore2Defs.step2 i]. rewrite Esh. rewrite Ht. rewrite Eton. reflexivity. }
+        rewrite (run_to _ _ _ _ _ _ Hrun).
+        one (KEnd i) (mkM2 stk nodes (l :: cnl) (n :: cur) (md :: modes) ifs pvs v1 store' (emit2 (ops_of (sa ++ o1)) (emit2 [IStart nm] o))).
+        cbn [XsltCore2Defs.run2 XsltCore2Defs.step2 i]. rewrite Esh.
+        change (tflag (emit2 (ops_of (sa ++ o1)) (emit2 [IStart nm] o))) with (tflag o). rewrite Ht. rewrite Eton. cbn [andb]. rewrite Hend.
+        rewrite <- (emit_elem nm [] (sa ++ o1) o). reflexivity.
+      + match type of Hs with match ?t with _ => _ end = _ => destruct t as [o1|] eqn:Eb; try discriminate end.
+        inversion Hs; subst en' items. clear Hs. fold (cxof n l md) in Eb.
+        set (i := JCopyU use body).
+        destruct (block_sim f Hf _ _ _ _ _ _ _ _ Eb i stk nodes cnl cur modes ifs pvs store o F R benv wpb HG HF HR Ht)
+          as [k [store' [v1 [Hrun [Hend Hext]]]]].
+        close_nd (1 + (k + (1 + 1))) store' Hext HF HR.
+        rewrite (run_to 1 _ _ _ KNext (mkM2 ((i, body, false) :: stk) nodes (l :: cnl) (n :: cur) (md :: modes) ifs pvs (begin_children2 body (VS F R)) store o)).
+        2:{ cbn [XsltCore2Defs.run2 XsltCore2Defs.step2 i]. rewrite Esh. reflexivity. }
+        rewrite (run_to _ _ _ _ _ _ Hrun).
+        one (KEnd i) (mkM2 stk nodes (l :: cnl) (n :: cur) (md :: modes) ifs pvs v1 store' (emit2 (ops_of o1) o)).
+        cbn [XsltCore2Defs.run2 XsltCore2Defs.step2 i]. rewrite Esh. rewrite Hend. reflexivity.
+      + destruct (copy_guard gd tm its) as [its'|] eqn:Ecg; try discriminate.
+        destruct (copy_guard_tfilter _ _ _ _ _ Hgf Ecg) as [Ei Ef]. subst its'.
+        inversion Hs; subst en' items. close_nd 2 store (ext_refl store) HF HR.
+        cbn [XsltCore2Defs.run2 XsltCore2Defs.step2]. rewrite Esh. cbn [XsltCore2Defs.run2 XsltCore2Defs.step2]. rewrite Esh.
+        rewrite Ht. rewrite Ef. reflexivity.
+    - (* an attribute set: under a context marker (no local binding of the user is visible), its own sets, then its attributes *)
+      destruct (nth_error templates (N.to_nat k)) as [[]|] eqn:Et; try discriminate.
+      destruct (sem_seq2 (sem2 f tm wp (cxof n l md)) (set_body use atts) []) as [o1|] eqn:Eb; try discriminate.
+      inversion Hs; subst en' items. clear Hs.
+      set (i := JSet k).
+      assert (HGn : GoodR [] (F ++ ECtx :: R)) by (apply Good_nested; [constructor|exact HG]).
+      assert (HFn : Fr true [] [] []) by (apply TF_Fr; apply (TF_params true [])).
+      destruct (seq_sim f Hf _ _ _ _ _ _ _ _ Eb i stk nodes cnl cur modes ifs pvs store o [] (F ++ ECtx :: R) [] [] HGn HFn (Forall2_nil _) Ht)
+        as [k1 [store1 [V1 [Hrun1 [HV1 [Hext1 Hnil1]]]]]].
+      rewrite (Hnil1 (set_body_nodecl use atts)) in Hrun1. cbn [app] in Hrun1.
+      close_nd (1 + (k1 + (1 + 1))) store1 Hext1 HF HR.
+      rewrite (run_to 1 _ _ _ KNext (mkM2 ((i, set_body use atts, false) :: stk) nodes (l :: cnl) (n :: cur) (md :: modes) ifs pvs (VS [] (F ++ ECtx :: R)) store o)).
+      2:{ cbn [XsltCore2Defs.run2 XsltCore2Defs.step2 i]. rewrite Et. unfold VS. rewrite push_st. reflexivity. }
+      rewrite (run_to _ _ _ _ _ _ Hrun1).
+      one (KEnd i) (mkM2 stk nodes (l :: cnl) (n :: cur) (md :: modes) ifs pvs (VS [] (F ++ ECtx :: R)) store1 (emit2 (ops_of o1) o)).
+      cbn [XsltCore2Defs.run2 XsltCore2Defs.step2 i]. unfold VS. rewrite (pop_ctx_st [] (F ++ ECtx :: R)) by constructor. reflexivity.
   Qed.
 
   Lemma sim_all : forall f, SimI f.
